@@ -71,10 +71,10 @@ def vf_is(a, b):
     """Semantic answer to `a is b` (DESIGN.md 1.2 'Identity')."""
     if a is b:
         return True
-    h = getattr(a, "__vf_is__", None)
+    h = getattr(a, "__vf_is__", None) if not isinstance(a, type) else None
     if h is not None:
         return h(b)
-    h = getattr(b, "__vf_is__", None)
+    h = getattr(b, "__vf_is__", None) if not isinstance(b, type) else None
     if h is not None:
         return h(a)
     if isinstance(a, proxies.SymBool) and isinstance(b, (bool, proxies.SymBool)):
